@@ -251,7 +251,20 @@ of_linear_binary_code_finish_decoding_with_ml (of_linear_binary_code_cb_t	*ofcb)
 	{
 		if (ofcb->encoding_symbols_tab[i] == NULL)
 		{
-			ofcb->encoding_symbols_tab[i] = variable_member[nb_computed_repair_in_ml];
+			void	*decoded_symbol = variable_member[nb_computed_repair_in_ml];
+			if (ofcb->decoded_source_symbol_callback != NULL)
+			{
+				/* this source symbol has just been decoded: tell the application, and use its buffer if any */
+				void	*dst = ofcb->decoded_source_symbol_callback (ofcb->context_4_callback,
+										     ofcb->encoding_symbol_length, i);
+				if (dst != NULL)
+				{
+					memcpy (dst, decoded_symbol, ofcb->encoding_symbol_length);
+					of_free (decoded_symbol);
+					decoded_symbol = dst;
+				}
+			}
+			ofcb->encoding_symbols_tab[i] = decoded_symbol;
 			nb_computed_repair_in_ml++;
 		}
 	}
@@ -451,8 +464,9 @@ of_linear_binary_code_simplify_linear_system_with_a_symbol (of_linear_binary_cod
 											     ofcb->encoding_symbol_length,
 											     decoded_symbol_seqno);
 					}
-					else
+					if (ofcb->encoding_symbols_tab[decoded_symbol_seqno] == NULL)
 					{
+						/* no callback, or the callback returned NULL to let the library allocate */
 						ofcb->encoding_symbols_tab[decoded_symbol_seqno] = of_malloc (ofcb->encoding_symbol_length);
 					}
 					if (ofcb->encoding_symbols_tab[decoded_symbol_seqno] == NULL)
